@@ -63,7 +63,11 @@ func ackedLoss(sc *Scen, prop, host string) int {
 	lost := sc.S.LostAcked(host)
 	if len(lost) > 0 {
 		t := lost[0]
-		sc.Violate(prop, "acked-loss", fmt.Sprintf("%d acknowledged transactions are missing on the final master %s, first %s:%d acknowledged by %s at %.3fs",
+		sig := "acked-loss:acknowledged-by-a-former-recorded-master"
+		if !sc.S.WasEverMaster(t.Host) {
+			sig = "acked-loss:acknowledged-by-a-promoted-but-never-recorded-master"
+		}
+		sc.Violate(prop, sig, fmt.Sprintf("%d acknowledged transactions are missing on the final master %s, first %s:%d acknowledged by %s at %.3fs",
 			len(lost), host, t.UUID, t.Gno, t.Host, t.EndAt.Seconds()), sc.S.W.Describe())
 	}
 	return len(lost)
